@@ -50,15 +50,13 @@ ASSUMPTIONS = [
     'window features are not generated (their ordering member is a generator object: neither comparable nor picklable)',
     'clauses needing .schema are masked for statements with unnamed outputs (C07 finding: .schema recursion)',
 ]
-# fractions of *all* cases: in the quick tier ~85 % of the cases are the all-pairs pool, so the floors of the generated
-# campaign are scaled accordingly (quick: 1500 pairs of ~10 000 cases; thorough: pairs dominate)
 FLOORS = {
-    'mode:edit': 0.06,
-    'mode:rebuild': 0.03,
-    'edit:literal-collide': 0.008,
-    'shape:join': 0.05,
-    'shape:nested': 0.03,
-    'parse:compared': 0.05,
+    'mode:edit': 0.35,
+    'mode:rebuild': 0.12,
+    'edit:literal-collide': 0.03,
+    'shape:join': 0.30,
+    'shape:nested': 0.10,
+    'parse:compared': 0.25,
 }
 SHARDS_THOROUGH = 16
 
@@ -501,7 +499,7 @@ def check_intra(ctx, spec):
 
 def campaigns(ctx):
     return [
-        Campaign('pair', pair_strategy, check_pair, 800, 7000),
+        Campaign('pair', pair_strategy, check_pair, 700, 7000),
         Campaign('intra', intra_strategy, check_intra, 100, 1000),
     ]
 
@@ -586,6 +584,9 @@ def enumerate_extra(ctx, shard, nshards):
         again = [mk(s) for s in specs]
         fps = [canon(o) for o in objs]
         for i, si in enumerate(specs):
+            # one case = one pool object against the whole pool (its own rebuild included)
+            row = {'label': label, 'x': si, 'against': len(specs)}
+            ctx.case(row, nontrivial=True, classes=[f'pool:{label}'])
             for j, sj in enumerate(specs):
                 x, y = objs[i], again[j]
                 same = fps[i] == fps[j]
@@ -593,7 +594,9 @@ def enumerate_extra(ctx, shard, nshards):
                     raise HarnessError(f'pool fingerprints disagree with specs: {si} / {sj}')
                 spec = {'label': label, 'x': si, 'y': sj}
                 collide = _pool_collision(si, sj)
-                ctx.case(spec, nontrivial=i != j, classes=[f'pool:{label}', 'pool:same' if same else 'pool:different'] + (['pool:collide'] if collide else []))
+                ctx.klass('pool-pair:same' if same else 'pool-pair:different')
+                if collide:
+                    ctx.klass('pool-pair:collide')
                 check_pool(ctx, spec, x, y, same, label, collide)
 
 
